@@ -50,6 +50,9 @@ def harnesses(tier, seed):
         jobs.append(dict(fn='h_roundtrip', params=dict(name='auto_abs', idx='neg', units='cm', phase=ph)))
         for name, ik in (('auto', 'list3'), ('ivc_abs', 'slice')) if q else (('auto', 'list3'), ('ivc_abs', 'slice'), ('ivc_prom', 'none'), ('auto_abs', 'list'), ('auto_shared', 'rev')):
             jobs.append(dict(fn='h_roundtrip', params=dict(name=name, idx=ik, units=None if name != 'auto' else 'mm', phase=ph, scalar=True)))
+    # a value set before final_setup on an auto-IVC tree that is resolved a second time (dynamic shapes) and has input defaults
+    jobs.append(dict(fn='h_dynamic_tree', params=dict(defaults=True)))
+    jobs.append(dict(fn='h_dynamic_tree', params=dict(defaults=False)))
     # batch several cases per worker job
     return jobs
 
@@ -204,3 +207,40 @@ def h_two_writes(ctx, phase):
     ctx.eq('after_run', p.get_val('w'), ctx.array(want) if ctx.sym else np.array(want, dtype=float), 1e-9)
     ctx.eq('read_in_mm', p.get_val('w', units='mm', indices=[2]), (ctx.array([v2[1]]) if ctx.sym else np.array([v2[1]])) * 1000, 1e-9)
     ctx.observe('w', p.get_val('w'))
+
+
+class _Dyn(om.ExplicitComponent):
+    def __init__(self, xp):
+        super().__init__()
+        self._xp = xp
+
+    def setup(self):
+        self.add_input('q', shape_by_conn=True)
+        self.add_output('s', val=self._xp.ones(1))
+        self.declare_partials('*', '*', method='fd')
+
+    def compute(self, i, o):
+        o['s'] = i['q'].sum()
+
+
+def h_dynamic_tree(ctx, defaults):
+    """two inputs promoted to one name, one of them sized by its connection (the tree is resolved again once the dynamic shapes
+    are known): a value written before final_setup is still there afterwards"""
+    _install(ctx)
+    xp = ctx.np
+    p = om.Problem()
+    p.model.add_subsystem('a', _Dyn(xp), promotes_inputs=['q'])
+    p.model.add_subsystem('b', _Sum(xp, {'q': ((3,), None)}), promotes_inputs=['q'])
+    if defaults:
+        p.model.set_input_defaults('q', val=xp.array([1.0, 2.0, 3.0]) if xp is not np else np.array([1.0, 2.0, 3.0]))
+    p.setup()
+    v = ctx.reals('v', 3, -50, 50)
+    p.set_val('q', v)
+    ctx.eq('get_before_final_setup', p.get_val('q'), v)
+    p.final_setup()
+    ctx.eq('get_after_final_setup', p.get_val('q'), v)
+    p.run_model()
+    ctx.eq('get_after_run', p.get_val('q'), v)
+    ctx.eq('consumer_b', p.get_val('b.q'), v)
+    ctx.eq('consumer_a', p.get_val('a.q'), v)
+    ctx.observe('q', p.get_val('q'))
